@@ -28,7 +28,7 @@ IsNil(v) == v.ty = "nil"
 AnnotTy == {"withStack", "withHint", "withDetail", "withSafeDetails", "withTelemetry",
             "withDomain", "withIssueLink", "withContext", "withAssertionFailure",
             "withMark", "withSecondaryError", "withHTTPCode", "withGrpcCode",
-            "pkgWithStack", "uAnnotWrap"}
+            "pkgWithStack", "uAnnotWrap", "uKeyWrap"}
 \* Wrappers whose Error() is "s: cause" (cause alone when s is empty).
 PrefixTy == {"withPrefix", "uWrapU", "uWrapC", "uWrapUC"}
 \* Wrappers whose Error() is always "s: cause", even for an empty s.
@@ -37,7 +37,7 @@ AlwaysPrefixTy == {"pkgWithMessage", "osPathError", "osLinkError", "osSyscallErr
 FullTy   == {"withNewMessage", "goWrapError", "uWrapFull"}
 \* Leaves (s is the whole text).
 LeafTy   == {"leafError", "goErr", "ctxDeadline", "errno", "opaqueErrno", "pkgFundamental",
-             "unimplementedError", "barrierErr", "uPtrLeaf", "uValLeaf", "uRegLeaf",
+             "unimplementedError", "barrierErr", "uPtrLeaf", "uValLeaf", "uValPtrLeaf", "uRegLeaf",
              "uProtoLeaf", "uIsLeaf", "uIsIdLeaf", "uSafeMsgLeaf", "uSafeDetLeaf", "uMaybe", "grpcStatus",
              "gogoStatus", "runtimeErr", "opaqueLeaf", "decoded"}
 \* Multi-cause nodes: text = branch texts joined by NL ...
